@@ -1,7 +1,9 @@
 ------------------------------- MODULE Streams -------------------------------
 (***************************************************************************)
-(* Stream multiplexing of one peer connection (radicle-node               *)
-(* wire/protocol.rs `Streams`, wire/frame.rs `StreamId`).                  *)
+(* Stream multiplexing of the connection(s) to one peer (radicle-node      *)
+(* wire/protocol.rs `Streams`, `Wire::worker_result`, the Io::Fetch arm of  *)
+(* `Wire::next`, the control-frame arms of `handle_transport_event`;        *)
+(* wire/frame.rs `StreamId`).                                               *)
 (*                                                                         *)
 (* A stream id carries its initiator in the lowest bit; each side numbers  *)
 (* the streams it opens itself: our n-th outgoing fetch on a connection    *)
@@ -10,60 +12,137 @@
 (* is already registered is a fatal error for us (`Streams::open` expects  *)
 (* the id to be free), so the peer must not be able to occupy our ids.     *)
 (*                                                                         *)
+(* Every registered stream has a worker task: an initiator task for our    *)
+(* fetches, a responder task for the streams the peer opened.  The worker  *)
+(* pool finishes a task at an arbitrary later time -- possibly after the   *)
+(* connection it belonged to is gone and a new one (a new epoch, with      *)
+(* fresh stream bookkeeping) took its place.  Results name the peer and    *)
+(* the stream id, nothing else.                                            *)
+(*                                                                         *)
 (* Actions:                                                                *)
-(*   OurOpen        Io::Fetch translated by Wire::next -> Streams::open    *)
-(*   RemoteOpen(s)  Control::Open from the peer -> Streams::register       *)
+(*   OurOpen        Io::Fetch translated by Wire::next -> Streams::open,    *)
+(*                  task to the worker, `open` frame to the peer            *)
+(*   RemoteOpen(s)  Control::Open from the peer -> Streams::register,       *)
+(*                  responder task to the worker                            *)
 (*   RemoteClose(s) Control::Close from the peer -> Streams::unregister    *)
-(*   WorkerDone(s)  worker result -> Streams::unregister                   *)
-(*   Disconnect     Streams::shutdown, connection gone; a reconnect starts *)
-(*                  with fresh Streams                                     *)
-(* Deviation "remote-opens-any" (the code as found): RemoteOpen registers  *)
-(* any id, including ids with our initiator bit.                           *)
+(*   RemoteEof(s)   Control::Eof from the peer -> forwarded to the worker   *)
+(*   WorkerDone(g)  Wire::worker_result -> Streams::unregister, `close`     *)
+(*                  frame to the peer if the stream was still registered    *)
+(*   Disconnect     connection lost: Streams::shutdown                      *)
+(*   Connect        the peer is back: fresh Streams, next epoch             *)
+(* Deviations (CONSTANT Dev):                                               *)
+(*   "remote-opens-any"  (the code as found, fixed) RemoteOpen registers    *)
+(*                       any id, including ids with our initiator bit.      *)
+(*   "late-closes-new"   (the code as it is; the wire half of the open      *)
+(*                       finding C16 late-same-peer) the result of a task   *)
+(*                       of an earlier connection unregisters -- and closes *)
+(*                       towards the peer -- the stream with the same id    *)
+(*                       on the current connection.                          *)
 (***************************************************************************)
 EXTENDS Integers, FiniteSets, Sequences
 
-CONSTANTS MaxSeq,   \* bound on streams per connection
-          MaxOps,   \* bound on behaviour length
+CONSTANTS MaxSeq,    \* bound on stream numbers per connection
+          MaxTasks,  \* bound on worker tasks
+          MaxEpoch,  \* bound on connections
+          MaxOps,    \* bound on behaviour length
           Dev
 
 Side == {"us", "them"}
 Id == Side \X (1..MaxSeq)
 
-VARIABLES open,     \* set of registered stream ids
-          seq,      \* number of streams we opened on this connection
-          crashed,  \* Streams::open found its id taken
-          hist      \* the behaviour so far, as a harness script (not part of the view)
-vars == <<open, seq, crashed, hist>>
-view == <<open, seq, crashed>>
+VARIABLES connected, \* is there a connection
+          epoch,     \* number of the current (or last) connection
+          open,      \* set of registered stream ids
+          seq,       \* number of streams we opened on this connection
+          tasks,     \* worker tasks: [side, epoch, n, st] with st \in {"running", "done"}
+          sent,      \* control frames we wrote in the last step: <<kind, side, n>>
+          crashed,   \* Streams::open found its id taken
+          stolen,    \* ghost: a result closed a stream of a connection its task did not belong to
+          hist       \* the behaviour so far, as a harness script (not part of the view)
+vars == <<connected, epoch, open, seq, tasks, sent, crashed, stolen, hist>>
+view == <<connected, epoch, open, seq, tasks, sent, crashed, stolen>>
 
-Init == open = {} /\ seq = 0 /\ crashed = FALSE /\ hist = <<>>
+Init == /\ connected = TRUE /\ epoch = 1 /\ open = {} /\ seq = 0 /\ tasks = <<>> /\ sent = <<>>
+        /\ crashed = FALSE /\ stolen = FALSE /\ hist = <<>>
 Log(op) == Len(hist) < MaxOps /\ hist' = Append(hist, op)
 
+NewTask(side, n) == [side |-> side, epoch |-> epoch, n |-> n, st |-> "running"]
+
 OurOpen ==
-    /\ ~crashed /\ seq < MaxSeq
+    /\ ~crashed /\ connected /\ seq < MaxSeq /\ Len(tasks) < MaxTasks
     /\ seq' = seq + 1
     /\ IF <<"us", seq + 1>> \in open
-       THEN crashed' = TRUE /\ UNCHANGED open
-       ELSE open' = open \cup {<<"us", seq + 1>>} /\ UNCHANGED crashed
+       THEN crashed' = TRUE /\ UNCHANGED <<open, tasks, sent>>
+       ELSE /\ open' = open \cup {<<"us", seq + 1>>}
+            /\ tasks' = Append(tasks, NewTask("us", seq + 1))
+            /\ sent' = << <<"open", "us", seq + 1>> >>
+            /\ UNCHANGED crashed
     /\ Log(<<"fetch">>)
+    /\ UNCHANGED <<connected, epoch, stolen>>
 
 RemoteOpen(s) ==
-    /\ ~crashed
+    /\ ~crashed /\ connected /\ Len(tasks) < MaxTasks
     /\ IF s \in open \/ (s[1] = "us" /\ "remote-opens-any" \notin Dev)
-       THEN UNCHANGED open          \* ignored: already open, or reserved for us
-       ELSE open' = open \cup {s}
+       THEN UNCHANGED <<open, tasks>>          \* ignored: already open, or reserved for us
+       ELSE open' = open \cup {s} /\ tasks' = Append(tasks, NewTask(s[1], s[2]))
+    /\ sent' = <<>>
     /\ Log(<<"ctrl", "open", s[1], s[2]>>)
-    /\ UNCHANGED <<seq, crashed>>
+    /\ UNCHANGED <<connected, epoch, seq, crashed, stolen>>
 
-RemoteClose(s) == ~crashed /\ open' = open \ {s} /\ Log(<<"ctrl", "close", s[1], s[2]>>) /\ UNCHANGED <<seq, crashed>>
-WorkerDone(s) == ~crashed /\ s \in open /\ s[1] = "us" /\ open' = open \ {s} /\ Log(<<"done", s[2]>>) /\ UNCHANGED <<seq, crashed>>
-Disconnect == ~crashed /\ open' = {} /\ seq' = 0 /\ Log(<<"reconnect">>) /\ UNCHANGED crashed
+RemoteClose(s) ==
+    /\ ~crashed /\ connected
+    /\ open' = open \ {s} /\ sent' = <<>>
+    /\ Log(<<"ctrl", "close", s[1], s[2]>>)
+    /\ UNCHANGED <<connected, epoch, seq, tasks, crashed, stolen>>
 
-Next == OurOpen \/ Disconnect \/ \E s \in Id : RemoteOpen(s) \/ RemoteClose(s) \/ WorkerDone(s)
+RemoteEof(s) ==
+    /\ ~crashed /\ connected
+    /\ sent' = <<>>
+    /\ Log(<<"ctrl", "eof", s[1], s[2]>>)
+    /\ UNCHANGED <<connected, epoch, open, seq, tasks, crashed, stolen>>
+
+\* The worker finishes task g.  Without a connection the result is dropped.  Otherwise the stream
+\* the result names is unregistered on the CURRENT connection and, if it was registered, closed
+\* towards the peer.
+WorkerDone(g) ==
+    /\ ~crashed /\ g \in DOMAIN tasks /\ tasks[g].st = "running"
+    /\ tasks' = [tasks EXCEPT ![g].st = "done"]
+    /\ LET s == <<tasks[g].side, tasks[g].n>>
+           mine == tasks[g].epoch = epoch
+       IN IF connected /\ s \in open /\ (mine \/ "late-closes-new" \in Dev)
+          THEN /\ open' = open \ {s}
+               /\ sent' = << <<"close", s[1], s[2]>> >>
+               /\ stolen' = (stolen \/ ~mine)
+          ELSE /\ sent' = <<>> /\ UNCHANGED <<open, stolen>>
+    /\ Log(<<"done", g>>)
+    /\ UNCHANGED <<connected, epoch, seq, crashed>>
+
+Disconnect ==
+    /\ ~crashed /\ connected
+    /\ connected' = FALSE /\ open' = {} /\ seq' = 0 /\ sent' = <<>>
+    /\ Log(<<"disconnect">>)
+    /\ UNCHANGED <<epoch, tasks, crashed, stolen>>
+
+Connect ==
+    /\ ~crashed /\ ~connected /\ epoch < MaxEpoch
+    /\ connected' = TRUE /\ epoch' = epoch + 1 /\ sent' = <<>>
+    /\ Log(<<"connect">>)
+    /\ UNCHANGED <<open, seq, tasks, crashed, stolen>>
+
+ROpen == \E s \in Id : RemoteOpen(s)
+RClose == \E s \in Id : RemoteClose(s)
+REof == \E s \in Id : RemoteEof(s)
+Done == \E g \in DOMAIN tasks : WorkerDone(g)
+Next == OurOpen \/ Disconnect \/ Connect \/ ROpen \/ RClose \/ REof \/ Done
 Spec == Init /\ [][Next]_vars
 
 \* C13: no sequence of control frames makes our own stream allocation fail.
 NoCrash == ~crashed
 \* Our ids are only ever registered by us, in order.
 OurIdsAreOurs == \A s \in open : s[1] = "us" => s[2] <= seq
+\* Every registered stream has a running task.
+OpenHasTask == \A s \in open : \E g \in DOMAIN tasks :
+                   tasks[g].side = s[1] /\ tasks[g].n = s[2] /\ tasks[g].epoch = epoch /\ tasks[g].st = "running"
+\* A result only ever closes a stream of the connection its task belonged to.
+NoStolenStream == ~stolen
 =============================================================================
